@@ -104,7 +104,65 @@ def same(a, b):
     return z3.BoolVal(False)
 
 
+REPLAY_BUILDER = r'''
+from guppylang.emulator.builder import EmulatorBuilder
+base = EmulatorBuilder().with_build_arg("build_method", "via-llvm-bitcode")
+before = base.custom_args
+a = base.with_build_arg("platform", "no-such-platform")
+b = base.with_name("n").with_build_arg("extra", 1)
+after = base.custom_args
+print(json.dumps({"violates": before != after or a.custom_args != {"build_method": "via-llvm-bitcode", "platform": "no-such-platform"} or b.custom_args != {"build_method": "via-llvm-bitcode", "extra": 1},
+                  "observed": {"base before": before, "base after deriving two siblings": after, "a": a.custom_args, "b": b.custom_args},
+                  "required": "deriving builders with further build arguments leaves the ancestor's (and each sibling's) arguments alone"}))
+'''
+
+
+def builder_section(chk):
+    """EmulatorBuilder (emulator/builder.py) is a configuration too: with_name / with_build_dir / with_verbose /
+    with_build_arg return a NEW builder that differs in the named setting only, and leave everything reachable from
+    the old builder — its dict of build arguments included — exactly as it was; the new builder's dict of build
+    arguments is not the old one (so that a later derivation from either cannot reach the other)."""
+    BM = "guppylang.emulator.builder"
+    e = mk_engine(chk)
+    for q in ("EmulatorBuilder.with_name", "EmulatorBuilder.with_build_dir", "EmulatorBuilder.with_verbose", "EmulatorBuilder.with_build_arg", "EmulatorBuilder.custom_args"):
+        e.func_info(BM, q)
+    m = e.module(BM)
+    for meth, field in (("with_name", "_name"), ("with_build_dir", "_build_dir"), ("with_verbose", "_verbose"), ("with_build_arg", "_custom_args")):
+        for prior in ("none", "one", "two", "same-key"):
+            def t(it, meth=meth, prior=prior):
+                EB = it.lookup_global(m, "EmulatorBuilder")
+                old_args = {"none": None, "one": {"k0": "v0"}, "two": {"k0": "v0", "k1": "v1"}, "same-key": {"key": "old"}}[prior]
+                me = SObj(EB, {"_name": "N", "_build_dir": SObj(ClassVal("Path", builtin=True), {}), "_verbose": SBool(z3.Bool("verbose0")), "_planner": None, "_utilities": None, "_interface": None,
+                               "_progress_bar": False, "_strict": False, "_save_planner": False, "_custom_args": old_args})
+                snap = dict(me.fields)
+                args_snap = None if old_args is None else dict(old_args)
+                r = it.call_method(me, meth, ["key", "VAL"] if meth == "with_build_arg" else ["NEW"])
+                return r, me, snap, old_args, args_snap
+            paths = e.explore(t)
+
+            def post(p, meth=meth, field=field, prior=prior):
+                if p.kind != "return" or not isinstance(p.value[0], SObj):
+                    return z3.BoolVal(False)
+                r, me, snap, old_args, args_snap = p.value
+                ok = r is not me and r.cls is me.cls
+                ok = ok and set(me.fields) == set(snap) and all(me.fields[k] is snap[k] for k in snap)           # the old builder's fields
+                ok = ok and (old_args is None or old_args == args_snap)                                           # the old dict's contents
+                for k in snap:
+                    if k != field:
+                        ok = ok and r.fields.get(k) is snap[k]
+                if meth == "with_build_arg":
+                    want = dict(args_snap or {}); want["key"] = "VAL"
+                    ok = ok and r.fields["_custom_args"] == want and r.fields["_custom_args"] is not old_args
+                else:
+                    ok = ok and r.fields[field] == "NEW"
+                return z3.BoolVal(bool(ok))
+            chk.prove_paths(f"EmulatorBuilder.{meth}[build-args-before={prior}]:fresh-builder/\\only-{field}-differs/\\nothing-reachable-from-the-old-builder-is-written/\\no-shared-argument-dict", paths, post,
+                            func=f"{BM}:EmulatorBuilder.{meth}", replay=lambda m_: {"script": REPLAY_BUILDER, "input": {}})
+    chk.use_engine(e)
+
+
 def run(chk):
+    chk.section("builder", lambda: builder_section(chk))
     e = mk_engine(chk)
     for q in ["EmulatorInstance._with_option", "EmulatorInstance.with_n_qubits", "EmulatorInstance._run_instance", "_Options"] + \
              [f"EmulatorInstance.{m}" for m in list(WITH) + list(SIMS)]:
